@@ -12,6 +12,7 @@ import WD.Proofs.Restart.Helpers
 import WD.Proofs.Restart.Spawns
 import WD.Proofs.Restart.Debs
 import WD.Proofs.Restart.Progress
+import WD.Proofs.Restart.NoDeadlock
 import WD.Proofs.Shell
 namespace WD.C18
 open WD.Deb WD.ProofsDeb
@@ -173,6 +174,46 @@ theorem no_deadlock_on_locks (j : Nat) (t : Rst.Thread)
     (hw : ProofsRst.waitsS t.pc = true ∨ ProofsRst.waitsR t.pc = true) :
     ProofsRst.CanMove (Rst.run (Rst.init cfg lifetimes rscripts) ras) :=
   ProofsRst.lock_wait_progress cfg lifetimes rscripts ras j t ht hw
+
+/-- **no call blocks for ever** (global): in every reachable state of the trick in which nothing can run and no timed wait
+    is pending (`Stuck`: the state would never change again), every thread - application threads inside `start()`,
+    `dispatch()` or `stop()`, process watchers, the debouncer - has ended, except that the debouncer may be waiting for a
+    first event while nobody has stopped it.  No thread is left at a lock, at the debouncer's condition, or in a `join()`.
+    (Proof: the lock discipline of `no_deadlock_on_locks`, plus: the condition lock is held across visible operations only
+    by the debouncer inside its callback; what `stop()` joins are the debouncer and a watcher thread, whose pcs are those
+    of their loops and of a restart; once the trick is stopping the debouncer's flag is up or the stopping thread is on
+    its way to raise it, and a flagged debouncer is never left un-notified - `Proofs/Restart/Cond.lean`, `Joins.lean`,
+    `StopFlag.lean`, `NoDeadlock.lean`.)  What the model cannot exhibit: that a real scheduler runs every enabled thread. -/
+theorem no_call_blocks_forever (hs : ProofsRst.Stuck (Rst.run (Rst.init cfg lifetimes rscripts) ras))
+    (i : Nat) (t : Rst.Thread) (ht : (Rst.run (Rst.init cfg lifetimes rscripts) ras).threads[i]? = some t) :
+    t.pc = .done ∨ (t.pc = .dWaitFirst ∧ t.kind = .deb ∧ t.stopFlag = false) :=
+  ProofsRst.stuck_idle (ProofsRst.reach_run cfg lifetimes rscripts ras) hs i t ht
+
+/-- **stop ends all** (global): once the working `stop()` has returned, a state in which nothing can run and no timed wait
+    is pending is one in which every thread of the trick has ended - the application threads, every process watcher, the
+    debouncer -/
+theorem stop_ends_all_threads (hs : ProofsRst.Stuck (Rst.run (Rst.init cfg lifetimes rscripts) ras)) (tid tm : Nat)
+    (h : Rst.Obs.stopRet tid tm ∈ (Rst.run (Rst.init cfg lifetimes rscripts) ras).hist)
+    (i : Nat) (t : Rst.Thread) (ht : (Rst.run (Rst.init cfg lifetimes rscripts) ras).threads[i]? = some t) : t.pc = .done :=
+  ProofsRst.stuck_all_done_after_stop (ProofsRst.reach_run cfg lifetimes rscripts ras) hs ⟨_, h, rfl⟩ i t ht
+
+/-- the debouncer's condition lock is never waited for in vain: whenever a thread waits for it (`handle_event`,
+    `event_debouncer.stop()`, the debouncer's loop head), some thread can take a step or sleeps in the kill loop -/
+theorem no_deadlock_on_condition (j : Nat) (t : Rst.Thread)
+    (ht : (Rst.run (Rst.init cfg lifetimes rscripts) ras).threads[j]? = some t) (hw : ProofsRst.waitsC t.pc = true) :
+    ProofsRst.CanMove (Rst.run (Rst.init cfg lifetimes rscripts) ras) :=
+  ProofsRst.waitC_progress (ProofsRst.reach_run cfg lifetimes rscripts ras).inv (ProofsRst.reach_run cfg lifetimes rscripts ras).ch j t ht hw
+
+/-- non-vacuity: a run with a debouncer and a watcher that ends in a stuck state after `stop()` returned -/
+example :
+    let s := Rst.run (Rst.init { interval := 200, killAfter := 1000, killDelay := 0, restartOnExit := true } [none, none]
+        [[.start, .event, .stop]])
+      ([.step 0, .step 0, .step 0, .step 0, .step 0, .step 0, .step 1, .step 1, .step 2, .step 0, .step 0, .step 0, .step 0,
+        .tick 300, .step 1, .step 1, .step 2, .step 0, .step 0, .step 0, .step 0, .step 0, .tick 300] ++
+       [.step 1, .step 1, .step 1, .step 2, .step 2, .step 3, .step 3, .step 0, .step 0, .step 0, .step 0, .tick 300, .step 1,
+        .step 2, .step 3, .step 0, .step 0, .step 0])
+    ProofsRst.stuckB s = true ∧ (s.hist.any fun o => match o with | .stopRet _ _ => true | _ => false) = true := by
+  decide +kernel
 
 /-- a watcher that has been told to stop is not blocked in its poll loop: it can take its next step, and that step ends it -/
 theorem stopped_watcher_ends (s : Rst.State) (j : Nat) (th : Rst.Thread) (hth : s.threads[j]? = some th)
